@@ -556,11 +556,19 @@ def run_real(plan, app_wrapper=None):
         attached = {}
         for p, name in enumerate(POINTS):
             lst = []
-            for h in rq.hooks.get(name, []):
-                cb = h.callback
-                lst.append((getattr(cb, 'vp_id', -1), h.priority, bool(h.failsafe), getattr(cb, 'vp_out', 'ok')))
+            # (read defensively: a change to the code under test may leave anything in request.hooks)
+            hm = getattr(rq, 'hooks', None)
+            entries = hm.get(name, []) if isinstance(hm, dict) else []
+            for h in (entries if isinstance(entries, (list, tuple)) else []):
+                cb = getattr(h, 'callback', None)
+                try:
+                    fs = bool(getattr(h, 'failsafe', False))
+                except Exception:     # noqa: BLE001
+                    fs = False
+                lst.append((getattr(cb, 'vp_id', -1), getattr(h, 'priority', None), fs, getattr(cb, 'vp_out', 'ok')))
             attached[p] = lst
-        reqs.append({'hooks': attached, 'show_tracebacks': bool(rq.show_tracebacks), 'closed': bool(rq.closed)})
+        reqs.append({'hooks': attached, 'show_tracebacks': bool(getattr(rq, 'show_tracebacks', True)),
+                     'closed': bool(getattr(rq, 'closed', False))})
     return {'j': run.j, 'starts': run.starts, 'chunks': chunks, 'escaped': escaped, 'reqs': reqs,
             'sites': run.sites, 'chunk_before_start': run.chunk_before_start}
 
